@@ -45,7 +45,15 @@ def run_shards(work, module, shard_jobs, timeout=900, keep=False):
 
     def one(job):
         path = os.path.join(work, "trace-%s.ndjson" % job["name"])
-        job["record"](path)
+        try:
+            job["record"](path)
+        except vf.EnginePanic as e:
+            # the recorder process was killed by a panic inside the engine (e.g. in a driver goroutine)
+            m = {"l": 0, "t": 0, "rule": "PANIC/engine-process-died", "class": "", "detail": {"stderr": str(e)[-1500:]}, "shard": job["name"], "file": path}
+            if job.get("args") is not None:
+                m["args"] = job["args"]
+            open(path, "a").close()
+            return dict(mm=[m], total=0, traces=0, states=0, trans=0, wall=0.0, first=None, path=path, kinds={})
         res, mm, total = validate_trace(work, module, path, timeout=timeout, env_extra=job.get("env"))
         for m in mm:
             m["shard"] = job["name"]
